@@ -23,6 +23,9 @@ func c12Gen(r *driver.Rand, thorough bool) *driver.Plan {
 	lens := make([]int, k)
 	for i := range lens {
 		lens[i] = r.Intn(7)
+		if r.Chance(1, 60) {
+			lens[i] = driver.Pick(r, 65, 100, 300) // a burst longer than any internal batch
+		}
 		if k > 5 {
 			lens[i] = r.Intn(3)
 		}
